@@ -26,16 +26,19 @@ ASMJIT_END_NAMESPACE
 alignas(16) static unsigned char rt_mem[sizeof(JitRuntime)];
 alignas(16) static unsigned char code_mem[sizeof(CodeHolder)];
 
-static void check_add(size_t size_before, size_t size_after) {
+// Every outcome of the four steps is a constant of the call (the harness enters check_add on separate paths): with symbolic
+// outcomes the allocator state after alloc() is a merge of "no block" and "new block" and the following release / shrink /
+// query on it did not fit in 8 GB.
+template<bool THEN_RELEASE> static void check_add(size_t size_before, size_t size_after, bool flatten_ok, bool resolve_ok, bool os_ok, bool relocate_ok) {
   JitAllocatorPrivateImpl* im = make_impl(0, 64, 64 * 64, 1, 0xCCCCCCCCu); JitAllocatorPool* pl = pool(0);
   // rt_mem / code_mem stay zero: the stubs never write them and _add only iterates the (empty) section vector
   JitRuntime* rt = reinterpret_cast<JitRuntime*>(rt_mem); CodeHolder* code = reinterpret_cast<CodeHolder*>(code_mem);
   rt->_allocator._impl = im;
   codeholder_calls = codeholder_calls_locked = 0; code_size_calls = 0;
-  stub_flatten = nondet_bool() ? Error::kOk : Error::kInvalidState; stub_resolve = nondet_bool() ? Error::kOk : Error::kInvalidDisplacement;
-  stub_relocate = nondet_bool() ? Error::kOk : Error::kRelocOffsetOutOfRange;
+  stub_flatten = flatten_ok ? Error::kOk : Error::kInvalidState; stub_resolve = resolve_ok ? Error::kOk : Error::kInvalidDisplacement;
+  stub_relocate = relocate_ok ? Error::kOk : Error::kRelocOffsetOutOfRange;
   stub_size_before = size_before; stub_size_after = size_after;
-  vm_alloc_fail = nondet_bool(); vm_next_rx = arena_at(arena_rx, 0); vm_next_rw = vm_next_rx;
+  vm_alloc_fail = !os_ok; vm_next_rx = arena_at(arena_rx, 0); vm_next_rw = vm_next_rx;
   void* fn = arena_rx;
   Error err = rt->JitRuntime::_add(&fn, code);
   verif_observe(uint64_t(err));
@@ -46,20 +49,30 @@ static void check_add(size_t size_before, size_t size_after) {
     V_ASSERT(fn == nullptr, "_add: failure returns a null function pointer");
     V_ASSERT(im->allocation_count == 0, "_add: failure leaves no span allocated");
     if (stub_flatten != Error::kOk || stub_resolve != Error::kOk || size_before == 0) { V_ASSERT(lock_count == 0 && pl->block_count == 0, "_add: failing before the allocation does not touch the allocator"); V_WITNESS("add-fails-early"); }
-    else if (vm_alloc_fail) { V_ASSERT(err == Error::kOutOfMemory, "_add: out of memory is reported"); V_WITNESS("add-out-of-memory"); }
-    else { V_ASSERT(err == stub_relocate && lock_count == 2, "_add: a relocation failure releases the span again (alloc + release)"); V_WITNESS("add-relocation-fails"); }
+    else if (vm_alloc_fail) { V_ASSERT(err == Error::kOutOfMemory, "_add: out of memory is reported"); if (size_before) V_WITNESS("add-out-of-memory"); }
+    else { V_ASSERT(err == stub_relocate && lock_count == 2, "_add: a relocation failure releases the span again (alloc + release)"); if (size_before) V_WITNESS("add-relocation-fails"); }
   } else {
     V_ASSERT(fn != nullptr && fn == static_cast<uint8_t*>(vm_next_rx) + 64, "_add: returns the executable address of the span (behind the block padding)");
     V_ASSERT(im->allocation_count == 1 && pl->block_count == 1, "_add: exactly one span is live");
     JitAllocator::Span q; Error qe = rt->_allocator.query(Out(q), fn);
     V_ASSERT(qe == Error::kOk && q._rx == fn && q._size == ((size_after + 63) & ~size_t(63)), "_add: the span was shrunk to the final code size");
     V_ASSERT(rw_depth == 0, "_add: memory is executable again on return");
-    Error re = rt->JitRuntime::_release(fn);
-    V_ASSERT(re == Error::kOk && im->allocation_count == 0 && lock_depth == 0, "_release: gives the span back through the allocator, lock released");
-    V_WITNESS("add-ok");
+    if (THEN_RELEASE) {
+      Error re = rt->JitRuntime::_release(fn);
+      V_ASSERT(re == Error::kOk && im->allocation_count == 0 && lock_depth == 0, "_release: gives the span back through the allocator, lock released");
+    }
+    if (size_before) V_WITNESS("add-ok");
   }
 }
-HARNESS h_runtime_add() {
-  uint32_t c = nondet_u8() & 3;
-  if (c == 0) check_add(0, 0); else if (c == 1) check_add(64, 64); else if (c == 2) check_add(200, 130); else check_add(4000, 64);
+template<bool THEN_RELEASE> static void all_outcomes(size_t before, size_t after) {
+  uint32_t c = nondet_u8() & 7;
+  if (c == 0) check_add<THEN_RELEASE>(before, after, false, true, true, true);
+  else if (c == 1) check_add<THEN_RELEASE>(before, after, true, false, true, true);
+  else if (c == 2) check_add<THEN_RELEASE>(before, after, true, true, false, true);
+  else if (c == 3) check_add<THEN_RELEASE>(before, after, true, true, true, false);
+  else if (c == 4) check_add<THEN_RELEASE>(before, after, true, true, false, false);
+  else if (c == 5) check_add<THEN_RELEASE>(0, 0, true, true, true, true);   // no code generated
+  else check_add<THEN_RELEASE>(before, after, true, true, true, true);
 }
+HARNESS h_runtime_add_exact() { all_outcomes<true>(64, 64); }
+HARNESS h_runtime_add_shrunk() { all_outcomes<false>(200, 130); }
